@@ -16,11 +16,15 @@
 #define OS_CAP 64
 #endif
 typedef struct verif_os { char buf[OS_CAP]; size_t len; unsigned flags; char fill; int width; } verif_os;
+#ifndef VERIF_STR_DEFINED
+#define VERIF_STR_DEFINED
 typedef struct verif_str { const char *p; size_t n; } verif_str;
+#endif
 #define OSF_HEX 8u          /* std::ios_base::hex in libstdc++ */
 #define OSF_DEC 2u
 #define OSF_OCT 64u
 #define OSF_BASEFIELD (OSF_HEX | OSF_DEC | OSF_OCT)
+#define OSF_SHOWBASE 512u   /* std::ios_base::showbase */
 
 #ifdef VERIF_CBMC
 #define OS_ASSERT(c, msg) __CPROVER_assert(c, "ostream model: " msg)
@@ -50,13 +54,45 @@ static inline verif_os *os_put_unsigned(verif_os *os, unsigned v)
   os->width = 0;
   return os;
 }
+static inline verif_os *os_manip_oct(verif_os *os) { os->flags = (os->flags & ~OSF_BASEFIELD) | OSF_OCT; return os; }
+static inline verif_os *os_manip_showbase(verif_os *os) { os->flags |= OSF_SHOWBASE; return os; }
+/* unsigned long insertion: digits in the current base, lowercase; with showbase a non-zero value gets
+   "0x" (hex) or a leading "0" (oct); right-aligned in `width` columns padded with `fill` (default
+   adjustfield); width reset to 0 */
+static inline verif_os *os_put_ulong(verif_os *os, unsigned long v)
+{
+  unsigned base = (os->flags & OSF_HEX) ? 16 : (os->flags & OSF_OCT) ? 8 : 10;
+  char d[24]; int n = 0;
+  unsigned long w = v;
+  do { unsigned r = (unsigned)(w % base); d[n++] = (char)(r < 10 ? '0' + r : 'a' + (r - 10)); w /= base; } while (w != 0 && n < 23);
+  int extra = 0;
+  if ((os->flags & OSF_SHOWBASE) && v != 0)
+    extra = base == 16 ? 2 : base == 8 ? 1 : 0;
+  for (int i = n + extra; i < os->width; ++i) os_putc(os, os->fill);
+  if (extra == 2) { os_putc(os, '0'); os_putc(os, 'x'); }
+  if (extra == 1) os_putc(os, '0');
+  while (n > 0) os_putc(os, d[--n]);
+  os->width = 0;
+  return os;
+}
+/* long insertion: decimal prints sign and magnitude; hex and oct print the two's complement bit
+   pattern as an unsigned number (what num_put does for signed types in those bases) */
+static inline verif_os *os_put_long(verif_os *os, long v)
+{
+  if ((os->flags & (OSF_HEX | OSF_OCT)) || v >= 0)
+    return os_put_ulong(os, (unsigned long)v);
+  os_putc(os, '-');
+  return os_put_ulong(os, 0UL - (unsigned long)v);
+}
 #define OS_FLAGS(os) ((os)->flags)
 static inline unsigned os_set_flags(verif_os *os, unsigned f) { unsigned o = os->flags; os->flags = f; return o; }
 #define OS_FILL(os) ((os)->fill)
 static inline char os_set_fill(verif_os *os, char c) { char o = os->fill; os->fill = c; return o; }
 #define VERIF_SETW(n) (n)
 #define VERIF_SETFILL(c) (c)
+#ifndef VERIF_MKSTR
 #define VERIF_MKSTR(p, n) ((verif_str){(p), (n)})
+#endif
 
 /* isprint in the locale of the process: ASCII graphic characters and space are printable, ASCII
    controls are not; for bytes >= 0x80 (negative as plain char) the answer depends on the locale
